@@ -317,6 +317,16 @@ Proof. reflexivity. Qed.
 Lemma ctxdone_sets_ctx : forall st, h_ctx (fst (hstep st ECtxDone)) = true.
 Proof. reflexivity. Qed.
 
+(* a read that fails with a timeout-class error once the session context has
+   ended (or the transport has closed) ends the reader goroutine: it does not retry *)
+Lemma reader_stops : forall st,
+  (h_ctx st || h_closed st) = true -> h_shut (fst (hstep st EReadRetry)) = true.
+Proof. intros st H. cbn [hstep]. rewrite src_reader_retry_stops, H. reflexivity. Qed.
+
+Lemma reader_retry_harmless : forall st,
+  (h_ctx st || h_closed st) = false -> hstep st EReadRetry = (st, []).
+Proof. intros st H. cbn [hstep]. rewrite H, andb_false_r. reflexivity. Qed.
+
 (* own context *)
 Lemma send_wait_own_ctx : forall closed e r,
   In SErrCtx (send_wait closed true e r) /\ send_wait false true None None = [SErrCtx].
